@@ -30,6 +30,10 @@ def derived_attributes(ci: ClassInfo) -> Dict[str, Set[str]]:
                 for t in st.targets:
                     if isinstance(t, ast.Name) and attrs:
                         carries.setdefault(t.id, set()).update(attrs)
+                # `vals = list(values); self.values = vals`: the local now is the attribute's value
+                own_attrs = {t.attr for t in st.targets if isinstance(t, ast.Attribute) and isinstance(t.value, ast.Name) and t.value.id == selfn}
+                if isinstance(st.value, ast.Name) and own_attrs:
+                    carries.setdefault(st.value.id, set()).update(own_attrs)
         # ... or computed from it (`index = {v: i for i, v in enumerate(self.values)}; self._value_index = index`)
         for _ in range(3):
             for st in own_nodes(m.node):
